@@ -6,6 +6,13 @@
 //   next <k>    -> loops <r1> ... <rk>   (k <= 10000)
 //   hash <h>    -> loop <r>              (h < 2^64)
 //   all         -> all <r1> ...
+//   spin <k>    -> spun <k> first <r|-> last <r|-> bad <b> [firstbad <i> got <r> want <r>]     (k <= 2^33)
+//                  k getNextLoop() calls in a tight loop, digest only: the first and the last result, the number b of
+//                  calls i >= 1 whose result is not the cyclic successor (in callback order; the base loop follows
+//                  itself when n = 0) of the result of call i-1, and the first such call (0-based within this op).
+//                  NOT part of the model driver's protocol (drv_pool answers bad-op): the expectation is the closed
+//                  form `(calls so far + i) mod n` of the Python oracle / of theorem C05.pool_round_robin.  Meant for
+//                  call counts around 2^31 and 2^32, where a cursor of the wrong width or a free-running one shows.
 //   anything else, or a query before the first `start` -> bad-op
 //
 // A loop is named independently of getAllLoops()/loops_: by the order in which the ThreadInitCallback
@@ -28,6 +35,7 @@ using namespace vh;
 static_assert(sizeof(size_t) == 8, "the protocol passes 64-bit hash codes");
 static const unsigned long long kMaxThreads = 64;
 static const unsigned long long kMaxBurst = 10000;
+static const unsigned long long kMaxSpin = 1ULL << 33;
 
 static muduo::MutexLock g_mutex;
 static std::vector<EventLoop*> g_seen;   // loops in callback order (guarded by g_mutex)
@@ -62,6 +70,48 @@ static std::string nameOf(EventLoop* base, EventLoop* l) {
 }
 
 static void bad() { printf("bad-op\n--\n"); }
+
+// `spin <count>`: see the header comment
+static void spin(EventLoop* base, EventLoopThreadPool* pool, unsigned long long count) {
+  std::vector<EventLoop*> order;
+  {
+    muduo::MutexLockGuard lock(g_mutex);
+    order = g_seen;
+  }
+  if (order.empty()) order.push_back(base);   // not reached: with n = 0 the callback saw the base loop
+  const size_t n = order.size();
+  EventLoop* const* ord = &order[0];
+  EventLoop* first = NULL;
+  EventLoop* last = NULL;
+  EventLoop* badGot = NULL;
+  EventLoop* badWant = NULL;
+  unsigned long long nbad = 0, firstBad = 0;
+  size_t idx = 0;            // position of the previous result in `order` (n: not one of them)
+  for (unsigned long long i = 0; i < count; ++i) {
+    EventLoop* l = pool->getNextLoop();
+    if (i == 0) {
+      first = l;
+      idx = n;
+      for (size_t j = 0; j < n; ++j) if (ord[j] == l) { idx = j; break; }
+    } else {
+      size_t want = idx + 1;
+      if (want >= n) want = 0;     // idx == n (unknown predecessor) also lands on 0: counted as a break below unless l is ord[0]
+      if (__builtin_expect(l != ord[want] || idx == n, 0)) {
+        if (nbad++ == 0) { firstBad = i; badGot = l; badWant = idx == n ? NULL : ord[want]; }
+        idx = n;
+        for (size_t j = 0; j < n; ++j) if (ord[j] == l) { idx = j; break; }
+      } else {
+        idx = want;
+      }
+    }
+    last = l;
+  }
+  printf("spun %llu first %s last %s bad %llu", count, count ? nameOf(base, first).c_str() : "-",
+         count ? nameOf(base, last).c_str() : "-", nbad);
+  if (nbad) printf(" firstbad %llu got %s want %s", firstBad, nameOf(base, badGot).c_str(),
+                   badWant ? nameOf(base, badWant).c_str() : "?");
+  printf("\n--\n");
+}
 
 int main() {
   muduo::Logger::setOutput(logToStderr);
@@ -102,6 +152,8 @@ int main() {
       printf("\n--\n");
     } else if (op == "hash" && w.size() == 2 && pool && parseU64(w[1], &v)) {
       printf("loop %s\n--\n", nameOf(&base, pool->getLoopForHash(static_cast<size_t>(v))).c_str());
+    } else if (op == "spin" && w.size() == 2 && pool && parseU64(w[1], &v) && v <= kMaxSpin) {
+      spin(&base, pool.get(), v);
     } else if (op == "all" && w.size() == 1 && pool) {
       std::vector<EventLoop*> ls = pool->getAllLoops();
       printf("all");
